@@ -64,6 +64,8 @@ pub struct Prog {
     /// C11: at every file removal take the image and check afterwards that a crash at that
     /// moment recovers every acknowledged write (single-writer programs only)
     pub recover_at_removals: bool,
+    /// additionally recover from the image after every manifest write and every rename
+    pub recover_at_meta: bool,
     /// sticky fault by file kind, armed after the setup: (call classes, file-name suffix)
     pub fault: Option<(u32, &'static str)>,
 }
@@ -90,6 +92,7 @@ impl Prog {
             "strict_unlink": self.strict_unlink,
             "fs_calls_are_switch_points": self.fs_switch,
             "crash_recovery_checked_at_every_file_removal": self.recover_at_removals,
+            "crash_recovery_checked_at_every_manifest_write_and_rename": self.recover_at_meta,
             "sticky_fault_after_setup": self.fault.map(|(c, s)| format!("classes {:#x} on *{}", c, s)),
         })
     }
@@ -275,6 +278,7 @@ fn prog_body(prog: &Prog, log: &Arc<Mutex<Vec<Event>>>, stale: &Arc<AtomicU64>) 
     fs.set_strict_unlink(prog.strict_unlink);
     if prog.recover_at_removals {
         fs.state().removal_clock = Some(&CLOCK);
+        fs.state().snap_meta = prog.recover_at_meta;
     }
     let opts = db_options(&fs, &prog.cfg);
     let db = match DB::open(opts) {
@@ -338,7 +342,7 @@ fn prog_body(prog: &Prog, log: &Arc<Mutex<Vec<Event>>>, stale: &Arc<AtomicU64>) 
 
 /// For every removal: recover from the image right after it; the contents must be the model of
 /// the writes acknowledged by then, or that plus the one write in flight.
-fn check_removal_snapshots(prog: &Prog, fs: &VerifFs, events: &[Event], snaps: &[(u64, std::path::PathBuf, crate::vfs::Image)]) -> Option<String> {
+fn check_removal_snapshots(prog: &Prog, fs: &VerifFs, events: &[Event], snaps: &[(u64, String, crate::vfs::Image)]) -> Option<String> {
     let mut writes: Vec<&Event> = events.iter().filter(|e| matches!(e.op, TOp::Put(..) | TOp::Del(..) | TOp::Batch(..))).collect();
     writes.sort_by_key(|e| e.invoke);
     // single-writer discipline: no two writes overlap in time
@@ -348,7 +352,8 @@ fn check_removal_snapshots(prog: &Prog, fs: &VerifFs, events: &[Event], snaps: &
         }
     }
     let dirs = fs.dirs();
-    for (tick, path, image) in snaps {
+    for (tick, label, image) in snaps {
+        let head = if label.starts_with("the removal") { "C11 needed file removed" } else { "C02 crash under concurrency" };
         let mut m = M::new();
         let mut cands: Vec<M> = vec![];
         let mut in_flight_done = false;
@@ -372,11 +377,7 @@ fn check_removal_snapshots(prog: &Prog, fs: &VerifFs, events: &[Event], snaps: &
         let db = match DB::open(db_options(&rfs, &prog.cfg)) {
             Ok(db) => db,
             Err(e) => {
-                return Some(format!(
-                    "C11 needed file removed: after the removal of {} a crash image cannot be opened: {}",
-                    path.file_name().map(|s| s.to_string_lossy().to_string()).unwrap_or_default(),
-                    e
-                ))
+                return Some(format!("{}: after {} a crash image cannot be opened: {}", head, label, e))
             }
         };
         let mut got = M::new();
@@ -389,8 +390,9 @@ fn check_removal_snapshots(prog: &Prog, fs: &VerifFs, events: &[Event], snaps: &
         if !cands.contains(&got) {
             let sh = |m: &M| format!("{{{}}}", m.iter().map(|(k, v)| format!("{}={}", esc(&prog.keys[*k as usize]), show_val(v))).collect::<Vec<_>>().join(", "));
             return Some(format!(
-                "C11 needed file removed: a crash right after the removal of {} recovers {} but the writes acknowledged by then give {}",
-                path.file_name().map(|s| s.to_string_lossy().to_string()).unwrap_or_default(),
+                "{}: a crash right after {} recovers {} but the writes acknowledged by then give {}",
+                head,
+                label,
                 sh(&got),
                 cands.iter().map(sh).collect::<Vec<_>>().join(" or ")
             ));
@@ -544,6 +546,8 @@ pub fn judge(prog: &Prog, out: &Outcome, events: &[Event], stale_uses: u64, atom
         if let Res::Err(m) = &e.res {
             let clause = if m.starts_with("C11 needed file removed") {
                 "C11.needed_file_removed"
+            } else if m.starts_with("C02 crash under concurrency") {
+                "C02.concurrent_crash"
             } else if m.contains("removed file") || m.contains("Could not find the file") {
                 "C11.live_deleted"
             } else if matches!(e.op, TOp::Get(_) | TOp::SnapRead(_) | TOp::IterScan) {
